@@ -218,20 +218,33 @@ TWfRun ==
             /\ lanes = MaskSet(Ev.mask)
             /\ \A ln \in lanes : Loc(ln, pk) = Unflatten(tgeo, Ev.first + ln)
          Add(pk) == e2e.ids \cup {p \in GSet(pk) : InGridItem(tgeo, p)}
+         \* the registers are exactly the separate (v0,v1,v2) layout of the lane's work-item although the
+         \* code object's kernels read the packed layout, and reading them packed gives something else:
+         \* the known timing deviation; bookkeeping then uses the separate layout so that the wavefront
+         \* that really owns the mis-read ids is not blamed later
+         TimingSep == /\ Ev.plat = "timing" /\ pe
+                      /\ \A ln \in lanes : Loc(ln, FALSE) = Unflatten(tgeo, Ev.first + ln)
+                      /\ \E ln \in lanes : Loc(ln, TRUE) # Unflatten(tgeo, Ev.first + ln)
+         use == IF TimingSep THEN FALSE ELSE pe
      IN /\ fl.ix = 1 /\ fl.iy = 1 /\ fl.iz = 1
-        /\ \/ Good(pe) /\ e2e' = [e2e EXCEPT !.ids = Add(pe)]
-           \/ /\ ~Good(pe) /\ Explained(pe) /\ Dev("WfStartNeedsPresentMultiple")
-              /\ e2e' = [e2e EXCEPT !.ids = Add(pe), !.dev = TRUE]
-           \/ /\ Ev.plat = "timing" /\ pe /\ ~Good(TRUE) /\ Good(FALSE) /\ Dev("TimingIgnoresPackedIds")
-              /\ e2e' = [e2e EXCEPT !.ids = Add(FALSE)]
-           \/ /\ Ev.plat = "timing" /\ pe /\ ~Good(TRUE) /\ ~Good(FALSE) /\ ~Explained(TRUE) /\ Explained(FALSE)
-              /\ Dev("WfStartNeedsPresentMultiple") /\ Dev("TimingIgnoresPackedIds")
-              /\ e2e' = [e2e EXCEPT !.ids = Add(FALSE), !.dev = TRUE]
+        /\ IF TimingSep THEN Dev("TimingIgnoresPackedIds") ELSE TRUE
+        /\ \/ Good(use) /\ e2e' = [e2e EXCEPT !.ids = Add(use)]
+           \/ /\ ~Good(use) /\ Explained(use) /\ Dev("WfStartNeedsPresentMultiple")
+              /\ e2e' = [e2e EXCEPT !.ids = Add(use), !.dev = TRUE]
   /\ UNCHANGED <<tgeo, tfilt, tnum, consumed, seen, split>>
+
+\* what would be executed (inside the grid) if every work-group were formed as implemented
+AsImplExecuted(geo) ==
+  UNION {LET cs == CurrSize(geo, id)
+             f == FormAsImpl(geo, cs)
+         IN {Global(geo, id, LaneId(geo, f, p)) : p \in Lanes(f)} : id \in AllWG(geo)} \cap GridItems(geo)
 
 TE2EEnd ==
   /\ Is("E2EEnd") /\ e2e.on
-  /\ e2e.dev \/ e2e.ids = GridItems(tgeo)      \* every work-item of the grid was executed
+  /\ IF e2e.ids = GridItems(tgeo)               \* every work-item of the grid was executed
+     THEN TRUE
+     ELSE \* work-items are missing: exactly those the as-implemented wavefront formation loses
+          e2e.ids = AsImplExecuted(tgeo) /\ Dev("WfStartNeedsPresentMultiple")
   /\ e2e' = NoE2E
   /\ UNCHANGED <<tgeo, tfilt, tnum, consumed, seen, split>>
 
